@@ -223,6 +223,7 @@ impl World {
             }
             "assert.eq" => self.op_assert(&op),
             "assert.last" => self.op_assert_last(&op),
+            "par" => self.op_par(&op),
             n if n.starts_with("sm2.") => crate::ops_sm2::exec(self, n, &op),
             n if n.starts_with("zuc.") => crate::ops_zuc::exec(self, n, &op),
             n if n.starts_with("sm9.") => crate::ops_sm9::exec(self, n, &op),
@@ -264,7 +265,25 @@ impl World {
     /// End-of-session oracle on slots: slot `a` must exist and equal slot `b` (or the literal
     /// `hex`). Part of the schedule, so that replays and minimised schedules re-evaluate it.
     fn op_assert(&mut self, op: &Value) -> R<Value> {
-        let a = self.slots.get(gs(op, "a")?).cloned();
+        // What must exist for the assertion to mean anything (so that a shortened schedule cannot
+        // "reproduce" a round-trip failure by simply dropping the operations that made the data):
+        // explicit `needs`, else for a plaintext slot X.pt the ciphertext X.ct it was decrypted from.
+        let a_name = gs(op, "a")?.to_string();
+        let mut needs: Vec<String> = op.get("needs").and_then(|v| v.as_array()).map(|v| v.iter().filter_map(|x| x.as_str().map(String::from)).collect()).unwrap_or_default();
+        if op.get("needs").is_none() {
+            if let Some(pfx) = a_name.strip_suffix(".pt") {
+                needs.push(format!("{pfx}.ct"));
+            }
+        }
+        if let Some(b) = gs_opt(op, "b") {
+            needs.push(b.to_string());
+        }
+        for n in &needs {
+            if !self.slots.contains_key(n) {
+                return Err(format!("slot '{n}' undefined"));
+            }
+        }
+        let a = self.slots.get(&a_name).cloned();
         let b = match gs_opt(op, "hex") {
             Some(h) => Some(hex::decode(h).map_err(|e| e.to_string())?),
             None => self.slots.get(gs(op, "b")?).cloned(),
@@ -279,6 +298,77 @@ impl World {
             format!("{what}: got {} want {}", a.as_ref().map(hex::encode).unwrap_or("<nothing>".into()), b.as_ref().map(hex::encode).unwrap_or("<nothing>".into()))
         });
         Ok(json!({"ok": ok}))
+    }
+
+    /// Two ops executed by two caller threads, interleaved deterministically at the RNG seam (see
+    /// simrng::Gate). Each runs on its own copy of the slots; what they produced is merged back.
+    fn op_par(&mut self, op: &Value) -> R<Value> {
+        let a = op.get("a").cloned().ok_or("par: field 'a' missing")?;
+        let b = op.get("b").cloned().ok_or("par: field 'b' missing")?;
+        let order: Vec<u8> = gs(op, "order")?.bytes().map(|c| if c == b'A' { 0 } else { 1 }).collect();
+        let gate = crate::simrng::Gate::new(&order);
+        let (wa, wb) = (self.fork(), self.fork());
+        let run = |mut w: World, o: Value, me: u8, g: std::sync::Arc<crate::simrng::Gate>| {
+            std::thread::Builder::new()
+                .stack_size(64 << 20)
+                .spawn(move || {
+                    crate::simrng::gate_install(g.clone(), me);
+                    g.acquire(me);
+                    let r = std::panic::catch_unwind(std::panic::AssertUnwindSafe(|| w.exec(o)));
+                    crate::simrng::gate_clear();
+                    g.finish(me);
+                    match r {
+                        Ok(r) => (w, r),
+                        Err(_) => {
+                            eprintln!("HARNESS PANIC inside a par thread");
+                            std::process::exit(101)
+                        }
+                    }
+                })
+                .map_err(|e| e.to_string())
+        };
+        let ha = run(wa, a, 0, gate.clone())?;
+        let hb = run(wb, b, 1, gate.clone())?;
+        let (wa, ra) = ha.join().map_err(|_| "par: thread A panicked".to_string())?;
+        let (wb, rb) = hb.join().map_err(|_| "par: thread B panicked".to_string())?;
+        let step = self.history.len();
+        for w in [wa, wb] {
+            if let Some(e) = w.invalid {
+                return Err(format!("par: inner op invalid: {e}"));
+            }
+            for (k, v) in w.slots {
+                if self.slots.get(&k) != Some(&v) {
+                    self.slots.insert(k, v);
+                }
+            }
+            for mut v in w.violations {
+                v.step = step;
+                self.violations.push(v);
+            }
+            for (k, v) in w.stats {
+                if !k.starts_with("op.") {
+                    self.bump_by(&k, v);
+                }
+            }
+            for (p, set) in w.cases {
+                self.cases.entry(p).or_default().extend(set);
+            }
+            for (k, n) in w.offered_in_calls {
+                *self.offered_in_calls.entry(k).or_insert(0) += n;
+            }
+            for (k, st) in w.used_scalars {
+                let prev = self.used_scalars.get(&k).copied();
+                if prev.is_some() && self.offered_in_calls.get(&k).copied().unwrap_or(0) <= 1 {
+                    let key = json!({"entry": "par", "class": "scalar-reuse", "outcome": "Ok"});
+                    self.check("C14", "fresh-across-run", false, fnv(&[b"par-dup", &k]), key, || format!("concurrent calls used the same scalar {}", hex::encode(&k)));
+                }
+                self.used_scalars.entry(k).or_insert(st);
+            }
+            self.observed.extend(w.observed);
+        }
+        self.bump("history.concurrent-callers");
+        self.bump_by("probe.par.thread-switches", gate.switches() as u64);
+        Ok(json!({"a": ra, "b": rb, "switches": gate.switches()}))
     }
 
     /// Oracle on the result summary of the previous op (e.g. a corpus item must have been accepted).
